@@ -59,3 +59,13 @@ def boundedByConstruction (baseFinite : Bool) (chain : List VOp) : Bool :=
   chain.foldl boundedStep baseFinite
 
 end Sqroot.Spec
+
+namespace Sqroot.Spec
+
+/-- C10: the requested positions that exist in the sequence, ascending: for each range
+`[s, e)` of a normalised Positions value, the part of the view's window inside it -/
+def shownOf (len : Option Nat) (digit : Nat → Nat) (w : Win) (ranges : List (Int × Int)) : List (Nat × Nat) :=
+  ranges.flatMap fun (s, e) =>
+    windowList len digit { lo := max w.lo s, hi := minOpt w.hi e } ((e - s).toNat + 1)
+
+end Sqroot.Spec
